@@ -276,7 +276,7 @@ theorem unaryWrap_code (o : ClientObs) (hin : ∀ e, o.result = some e → e.cod
   · rename_i e' hm hr; exact hin e h
   · simp only [Option.some.injEq] at h; subst h; exact codes_nonzero.2.1
   · rename_i hm hr; rw [hr] at h; cases h
-  · simp only [Option.some.injEq] at h; subst h; exact codes_nonzero.2.1
+  · exact hin e h
   · simp only [Option.some.injEq] at h; subst h; exact codes_nonzero.2.1
 
 /-- **client_error_code_nonzero**: for any HTTP response whatsoever (any status, header map,
